@@ -617,6 +617,28 @@ func genCrashCase(i int) crashCase {
 			return crashCase{target: target, kind: "structured-pipelined", input: concat(fr), frames: len(fr), slowly: rng.Intn(8) == 0}
 		}
 		return crashCase{target: target, kind: "structured", setup: fr[:ns], input: concat(fr[ns:]), frames: len(fr), slowly: rng.Intn(8) == 0}
+	case 5: // renegotiation: a tiny msize first (small reply buffers end up in the pool), then a Tversion asking for more, then large reads
+		small := []uint32{24, 25, 32, 64, 128}[rng.Intn(5)]
+		fr := setupFrames(target, small, dotu)
+		for j := 0; j < 6; j++ {
+			if f := ccFrame(&gmsg{kind: go9p.Tstat, a: uint64(1 + j%4)}, dotu, uint16(50+j)); f != nil && len(f) <= int(small) {
+				fr = append(fr, f)
+			}
+		}
+		ns := len(fr)
+		ver := "9P2000"
+		if dotu {
+			ver = "9P2000.u"
+		}
+		big := []uint32{4096, 8192, 65536, 199999, 200000, 200001}[rng.Intn(6)]
+		fr = append(fr, ccFrame(&gmsg{kind: go9p.Tversion, a: uint64(big), s1: []byte(ver)}, dotu, go9p.NOTAG))
+		for j := 0; j < 8; j++ {
+			cnt := []uint64{100, 1000, 4072, 8168, uint64(big) - 24, uint64(big) - 25, 65536}[rng.Intn(7)]
+			fid := []uint64{3, 4, 8, 2}[rng.Intn(4)]
+			fr = append(fr, ccFrame(&gmsg{kind: go9p.Tread, a: fid, b: uint64(rng.Intn(3)) * 10, c: cnt}, dotu, uint16(100+j)))
+		}
+		// the renegotiation and what follows go out one by one as well: each read meets the new msize
+		return crashCase{target: target, kind: "renegotiate", setup: fr, input: ccFrame(&gmsg{kind: go9p.Tstat, a: 1}, dotu, 999), frames: len(fr) - ns}
 	case 6: // adversarial requests straight away (no Tversion, no attach)
 		var fr [][]byte
 		for j := 0; j < 3+rng.Intn(8); j++ {
